@@ -7,6 +7,7 @@ import "strings"
 
 var c03WalkFiles = []string{
 	"D/", "D/*", "D/\n!D/E/", "D/\n!D/E/G", "*\n!H", "F", "/F", "E/\n!G", "D/E", "!D/\nD/F", "D/*\n!D/F", "**/G", "D/**\n!D/E/**", "?", "D", "# x\n\nH\n",
+	"D/F**", "F**", "D/\n!D/F\nF", "!H\nH", "D/E/\n!D/E/G\nG",
 }
 
 func c03Subst(text string, names map[byte]string) string {
@@ -39,6 +40,7 @@ func HarnessC03Walk() {
 	envMkdir(packSrc+"/"+d+"/"+e, 0755, 1000)
 	envWriteFile(packSrc+"/"+d+"/"+e+"/"+g, 0644, 1000, "G")
 	envWriteFile(packSrc+"/"+h, 0644, 1000, "H")
+	envWriteFile(packSrc+"/"+d+"/zz", 0644, 1000, "Z") // a later sibling of f
 	text := c03Subst(c03WalkFiles[verif.Param("file", 0)], map[byte]string{'D': d, 'E': e, 'F': f, 'G': g, 'H': h})
 	envWriteFile(packSrc+"/.terraformignore", 0644, 1000, text)
 	lines := strings.Split(text, "\n")
@@ -54,7 +56,7 @@ func HarnessC03Walk() {
 		shipped[en.Name] = true
 	}
 	verif.Reach("walked")
-	files := []string{d + "/" + f, d + "/" + e + "/" + g, h, ".terraformignore"}
+	files := []string{d + "/" + f, d + "/" + e + "/" + g, h, ".terraformignore", d + "/zz"}
 	for _, fp := range files {
 		want := true
 		if p.applyTerraformIgnore {
